@@ -122,7 +122,21 @@ func HarnessC03Key(maxLen int, shape int, pair bool) {
 	verifAssume(verifNot(verifPresent(m, K, verifCaseInsensitive(site.ctx), len(m.Content))))
 	s := yScalar(verifBadExpr)
 	kn, vn := yScalar(K), verifShape(shape, s)
-	m.Content = append(m.Content, kn, vn)
+	if !pair {
+		// sibling configurations: one existing entry may be absent, and the new entry
+		// may come first (checks that depend on a sibling or on the key order)
+		if drop := verifChoose("drop", len(m.Content)/2+1); drop > 0 {
+			d := 2 * (drop - 1)
+			m.Content = append(append([]*yaml.Node{}, m.Content[:d]...), m.Content[d+2:]...)
+		}
+		if verifChoose("first", 2) == 1 {
+			m.Content = append([]*yaml.Node{kn, vn}, m.Content...)
+		} else {
+			m.Content = append(m.Content, kn, vn)
+		}
+	} else {
+		m.Content = append(m.Content, kn, vn)
+	}
 	if pair {
 		k2len := 2
 		if fixedCtx {
